@@ -3420,6 +3420,18 @@ impl RaftNode {
             }
         }
 
+        // A snapshot that ends before our commit index is stale. Installing it would drop the
+        // committed entries that follow it and move the commit index backwards.
+        {
+            let commit_index = self.volatile.read().commit_index;
+            if metadata.last_included_index < commit_index {
+                let incoming = metadata.last_included_index;
+                return Err(ChainError::SnapshotError(format!(
+                    "stale snapshot: incoming index {incoming} < commit index {commit_index}"
+                )));
+            }
+        }
+
         // Check if we need to update term and persist BEFORE acquiring locks
         let needs_term_update = {
             let persistent = self.persistent.read();
